@@ -1,6 +1,7 @@
 pub mod c07;
 pub mod c08;
 pub mod c09;
+pub mod c16;
 pub mod c17;
 
 use crate::runner::{Ctx, ReplayFile};
@@ -14,6 +15,7 @@ pub fn lookup(id: &str) -> Option<(&'static str, RunFn, ReplayFn, &'static str)>
         "C07" => ("C07", c07::run, c07::replay, "exploration"),
         "C08" => ("C08", c08::run, c08::replay, "exploration"),
         "C09" => ("C09", c09::run, c09::replay, "exploration"),
+        "C16" => ("C16", c16::run, c16::replay, "exploration"),
         "C17" => ("C17", c17::run, c17::replay, "exploration"),
         _ => return None,
     })
